@@ -345,7 +345,7 @@ func c05CleanSection(sc *c05Scenario, recs [][2]string) string {
 // ---- generators ----
 
 // c05CleanRecords : a dereplicated data set: distinct sequences (hubs, their one- and two-difference variants, unrelated
-// ones), each with its merged_sample map over the samples a, b, c; identifiers s000, s001, …
+// ones), each with its merged_sample map over the samples a, b, c; identifiers s0, s1, …
 func c05CleanRecords(r *rand.Rand, nrec int) [][2]string {
 	recs := make([][2]string, 0, nrec)
 	seen := map[string]bool{}
@@ -391,7 +391,7 @@ func c05CleanRecords(r *rand.Rand, nrec int) [][2]string {
 			kv = append(kv, fmt.Sprintf("%q:%d", "a", 1+r.Intn(9)))
 		}
 		var sb strings.Builder
-		fmt.Fprintf(&sb, ">s%03d {\"merged_sample\":{%s}}\n", len(recs), strings.Join(kv, ","))
+		fmt.Fprintf(&sb, ">s%d {\"merged_sample\":{%s}}\n", len(recs), strings.Join(kv, ","))
 		c05Fold(&sb, s)
 		recs = append(recs, [2]string{sb.String(), ""})
 	}
